@@ -11,7 +11,7 @@ def known(meta, msg):
 
 
 def main(rep):
-    wk.standard_main(rep, crash=True, known=known, crash_monitors=["recovery", "store_immutable", "queue_form", "fault_reported", "position_not_ahead"],
+    wk.standard_main(rep, crash=True, known=known, crash_monitors=["recovery", "post_restart_ok", "store_immutable", "queue_form", "fault_reported", "position_not_ahead"],
                      rule=("every system-call boundary (crash before call k, for every k of the implementation's own call log, and after the last) of the "
                            "operation under test in each scenario family: accepting a write (plain / project), timeout pass over one, duplicated, colliding, "
                            "history (first / with offset), project (first / second snapshot), deleted, unreadable, directory sources, configuration reload to a "
@@ -20,4 +20,4 @@ def main(rep):
 
 
 def replay(rep, path):
-    return wk.replay_world(rep, path, ["recovery", "store_immutable", "queue_form", "position_not_ahead"])
+    return wk.replay_world(rep, path, ["recovery", "post_restart_ok", "store_immutable", "queue_form", "position_not_ahead"])
